@@ -550,10 +550,11 @@ class Wrapc(util.WrapperMixin):
         fmt_class.CXX_this_call = fmt_class.CXX_this + "->"
 
         # create a forward declaration for this type
-        hname = whelpers.add_shadow_helper(node)
-        self.shared_helper[hname] = True
-        #        self.header_forward[cname] = True
-        self.compute_idtor(node)
+        if node.wrap.c:
+            hname = whelpers.add_shadow_helper(node)
+            self.shared_helper[hname] = True
+            #        self.header_forward[cname] = True
+            self.compute_idtor(node)
 
         self.wrap_enums(node)
 
